@@ -16,6 +16,9 @@ structure Bad where
   program : String
   model   : String
   panics  : Bool := false
+  /-- the difference is itself a failure of the property the function carries (not merely a broken tie): the compared
+      outcome *is* the property's observable (who is told, what touches the connection, whether the method runs) -/
+  violates : Bool := false
   deriving Repr
 
 def showOut (o : Out) : String :=
@@ -47,7 +50,7 @@ def searchHasPerm : Option Bad :=
       let want := Val.bool (Auth.hasPerm att defs p)
       if o.val? = some want then none
       else some { fn := "auth.HasPerm", input := s!"attached={repr att} defaults={repr defs} perm={repr p}",
-                  program := showOut o, model := s!"{repr want}", panics := o.isPanic }
+                  program := showOut o, model := s!"{repr want}", panics := o.isPanic, violates := true }
 
 /-! ### frame handlers -/
 
@@ -248,7 +251,7 @@ def searchNextWriter : Option Bad :=
         else [.str "conn.NextWriter", .cons (.str "cb") (.tag "wcl" .nil), .str "wcl.Close"]
       if out.fx = some want then none
       else some { fn := "wsConn.nextWriter", input := s!"current epoch={cur} epoch of the request={ep} NextWriter fails={o} Close fails={c}",
-                  program := showOut out, model := s!"uses of the connection and of the callback: {repr want}", panics := out.isPanic }
+                  program := showOut out, model := s!"uses of the connection and of the callback: {repr want}", panics := out.isPanic, violates := true }
 
 def searchSweep : Option Bad :=
   let ess : List (List (NId × Bool)) := [[], [(.num "1", true)], [(.num "1", false)], [(.num "1", true), (.str "a", false), (.num "2", true)]]
@@ -257,7 +260,7 @@ def searchSweep : Option Bad :=
     let want := ((es.filter (·.2)).map fun e => deliverFx e.1) ++ hs.map encCancel
     if out.fx = some want ∧ (out.env?.bind (·.get "c.inflight")) = some .nil ∧ (out.env?.bind (·.get "c.handling")) = some .nil then none
     else some { fn := "wsConn.closeInFlight", input := s!"inflight (id, mailbox has room)={repr es} handling={repr hs}",
-                program := showOut out, model := s!"effects {repr want}; both tables empty afterwards", panics := out.isPanic }
+                program := showOut out, model := s!"effects {repr want}; both tables empty afterwards", panics := out.isPanic, violates := true }
 
 def searchCloseChans : Option Bad :=
   firstSome chansGrid fun cs =>
@@ -265,7 +268,7 @@ def searchCloseChans : Option Bad :=
     let want := cs.map fun c => encCb c .nil false
     if out.fx = some want ∧ (out.env?.bind (·.get "c.chanHandlers")) = some (encChans []) then none
     else some { fn := "wsConn.closeChans", input := s!"chanHandlers={repr cs}", program := showOut out,
-                model := s!"sink calls {repr want}; table empty afterwards", panics := out.isPanic }
+                model := s!"sink calls {repr want}; table empty afterwards", panics := out.isPanic, violates := true }
 
 /-- Search by the name of the Lean module whose theorems no longer check (the last component of `JrpcProofs.Trans.X`). -/
 def byModule (m : String) : Option (List (Option Bad)) :=
